@@ -54,6 +54,11 @@ struct Fixture {
 /// every fixture also serves `hop.ts` (an honest redirect to `other.ts`, so a
 /// single injected redirect yields a two-hop chain) and `again.ts`, the root of
 /// an optional second build on the same graph that asks for everything again
+thread_local! {
+  /// BuildOptions::prefer_cached_jsr_versions for the builds of the current run
+  static PREFER_CACHED: std::cell::Cell<bool> = const { std::cell::Cell::new(false) };
+}
+
 fn install_common(l: &ScriptedLoader, again: &str) {
   l.add("https://x/hop.ts", Entry::Redirect(url("https://x/other.ts")));
   l.add_text("https://x/again.ts", again);
@@ -84,7 +89,18 @@ fn fixture(i: usize) -> Fixture {
       install: Box::new(move |l| {
         l.add_text("https://x/root.ts", "import \"jsr:@s/a\";\nimport \"https://jsr.io/@s/b/1.0.0/mod.ts\";\nimport \"./p.ts\";\nawait import(\"./late.ts\");\n");
         l.add_text("https://x/p.ts", "export const p = 1;\n");
-        l.add_text("https://x/late.ts", "import \"jsr:@s/a\";\nimport \"jsr:@s/b@^1\";\nimport \"./p.ts\";\n");
+        // late.ts also asks for a requirement no version satisfies and for a package whose only match is yanked
+        l.add_text("https://x/late.ts", "import \"jsr:@s/a\";\nimport \"jsr:@s/b@^1\";\nimport \"./p.ts\";\nimport \"jsr:@s/b@^9\";\nimport \"jsr:@s/y@1\";\n");
+        let mut y = RegPackage {
+          name: "@s/y".into(),
+          versions: vec![RegVersion::new("1.0.0", &[("/mod.ts", "export const y = 1;\n")])],
+          raw_meta: None,
+        };
+        y.versions[0].yanked = true;
+        if i == 2 {
+          y.versions[0].embed_module_graph = true;
+        }
+        y.install(l);
         install_common(l, "import \"jsr:@s/a\";\nimport \"jsr:@s/a@1/\";\nimport \"https://jsr.io/@s/b/1.0.0/mod.ts\";\nimport \"https://jsr.io/@s/a/1.0.0/sub.ts\";\nimport \"./p.ts\";\n");
         l.add_text("https://x/other.ts", "export const other = 1;\n");
         let mut a = RegPackage {
@@ -156,6 +172,7 @@ fn build_fixture_sched(
   mode: SchedMode,
   second: bool,
 ) -> (ModuleGraph, Vec<Injected>, Vec<String>, Result<(), DriveError>) {
+  let prefer_cached = PREFER_CACHED.with(|p| p.get());
   let sched = Sched::new(mode);
   let loader = ScriptedLoader::new(sched);
   (fx.install)(&loader);
@@ -267,6 +284,7 @@ fn build_fixture_sched(
   let cfg = || BuildCfg {
     unstable_text: true,
     unstable_bytes: true,
+    prefer_cached_jsr_versions: prefer_cached,
     npm: if fx.with_npm { Some(&npm) } else { None },
     // completion order is a free (shape) choice here: faults are what is bounded
     sched_cost: false,
@@ -298,6 +316,9 @@ fn body_sched(fixtures: Vec<usize>, mode: SchedMode) -> impl Fn(&Ch) -> Run + Sy
     let fx = fixture(fi);
     let npm_mode = if fx.with_npm { ch.choose("npm_answer", 3) } else { 0 };
     let second = ch.flag("second_build_on_the_same_graph");
+    // a non-default build option that adds load calls (cache-only probes) to the registry fixtures
+    let prefer_cached = matches!(fi, 1 | 2) && ch.choose("prefer_cached_jsr_versions", 2) == 1;
+    PREFER_CACHED.with(|p| p.set(prefer_cached));
     // fault-free reference (same npm answer)
     let (g0, _, _, r0) = build_fixture(&fx, ch, false, npm_mode, second);
     let (g, injected, log, r) = build_fixture_sched(&fx, ch, true, npm_mode, mode, second);
@@ -305,7 +326,7 @@ fn body_sched(fixtures: Vec<usize>, mode: SchedMode) -> impl Fn(&Ch) -> Run + Sy
     let o0 = obs(&g0);
     let o = obs(&g);
     let case = |extra: Value| {
-      json!({"fixture": fx.name, "second_build_with_root_again.ts": second, "npm_answer": (["ok", "request-error", "dep-graph-error"][npm_mode]),
+      json!({"fixture": fx.name, "second_build_with_root_again.ts": second, "prefer_cached_jsr_versions": prefer_cached, "npm_answer": (["ok", "request-error", "dep-graph-error"][npm_mode]),
         "injected": injected.iter().map(|i| json!({"call": i.call_index, "kind": i.kind, "specifier": i.specifier.as_str(), "cache_setting": i.cache_setting, "answer": i.fault})).collect::<Vec<_>>(),
         "loader_calls": log, "detail": extra})
     };
@@ -522,7 +543,7 @@ fn body_sched(fixtures: Vec<usize>, mode: SchedMode) -> impl Fn(&Ch) -> Run + Sy
         }
       }
     }
-    run.state_key = hash_of(&(fi, npm_mode, second, format!("{injected:?}"), &log));
+    run.state_key = hash_of(&(fi, npm_mode, second, prefer_cached, format!("{injected:?}"), &log));
     run.nontrivial = !injected.is_empty();
     run.outcome_key = hash_json(&json!([o["slots"].as_object().map(|m| m.iter().map(|(k, v)| (k.clone(), v.get("error_kind").cloned().unwrap_or(v["kind"].clone()))).collect::<serde_json::Map<_, _>>()), o["redirects"]]));
     run.count("faults_injected", injected.len() as u64);
